@@ -1,7 +1,66 @@
-Require Import FV.Gen.C01 FV.C01.Model.
+(* C01 — property theorems.  d ranges over ALL datatype trees (any depth and width), v/j over all modelled Python
+   values, prev over None and every value of the type.  Full statement of the property and what is proved:
+
+   (sound)     validation never returns a value outside the declared value set           -- proved unconditionally
+                (limits, lengths, membership, element-wise; struct members declared and well-typed);
+                presence of mandatory struct members is refuted (C01_refuted_struct_none_mandatory)
+   (total)     the only other outcome is RangeError / WrongTypeError                      -- proved under the guards
+                validate_guard / import_guard / wire_guard, which are exactly the complements of the finding classes
+                scaled-nonfinite-leaks, struct-from-nonmapping, import-noniterable-into-sequence (Refuted.v)
+   (canonical) the result denotes the offered value                                        -- refuted for the finding
+                classes of Refuted.v; outside them it is checked by the correspondence + specification-side oracle only
+   (idempotent) validate(validate(v)) = validate(v)                                       -- oracle only (partial)          *)
+From Coq Require Import ZArith NArith Bool List.
+Import ListNotations.
+Require Import FV.Gen.C01 FV.Base.F64 FV.Base.PyVal FV.C01.Model FV.C01.Lemmas FV.C01.Refuted.
+
 Theorem C01_source_facts :
   unlimited_is_2_64 = true /\ clamp_is_median_of_sorted = true /\ float_validate_shape = true /\
   int_validate_shape = true /\ scaled_validate_shape = true /\ generic_import_is_call = true /\
   containers_wrap_element_errors = true.
 Proof. repeat split; reflexivity. Qed.
+
+Theorem C01_validate_sound : forall d, wf d -> forall v prev r,
+  prev_ok d prev -> dt_validate d v prev = Ok r -> in_setb d r = true.
+Proof. exact validate_sound. Qed.
+
+Theorem C01_wire_sound : forall E d, wf d -> forall j prev r,
+  prev_ok d prev -> wire E d j prev = Ok r -> in_setb d r = true.
+Proof. exact wire_sound. Qed.
+
+Theorem C01_validate_total : forall d v prev,
+  validate_guard d v prev = true -> okbad (dt_validate d v prev) = true.
+Proof. exact validate_total. Qed.
+
+Theorem C01_import_total : forall E d j, import_guard d j = true -> okbad (dt_import E d j) = true.
+Proof. exact import_total. Qed.
+
+Theorem C01_wire_total : forall E d j prev, wire_guard E d j prev = true -> okbad (wire E d j prev) = true.
+Proof. exact wire_total. Qed.
+
+(* the median-of-three clamp used for the resolution tolerance stays between its bounds, for all binary64 numbers *)
+Theorem C01_clamp_between : forall lo v hi,
+  F64Lemmas.notnan lo -> F64Lemmas.notnan v -> F64Lemmas.notnan hi -> fle lo hi = true ->
+  fle lo (fclamp lo v hi) = true /\ fle (fclamp lo v hi) hi = true /\
+  (fle lo v = true -> fle v hi = true -> fclamp lo v hi = v).
+Proof. exact F64Lemmas.fclamp_between. Qed.
+
+(* non-vacuity: a nested well-formed type, a value that validates into the set, guards that hold *)
+Definition demo_d : dtype :=
+  TStruct [([97%N], TArray (TFloat fzero (of_Z 10) fzero (fmk 1 (-20))) 0 3); ([98%N], s01)] [[98%N]] false.
+Example C01_demo_wf : wf demo_d.
+Proof. cbn [demo_d wf snd]. repeat split; vm_compute; reflexivity. Qed.
+Example C01_demo_run :
+  res_same (dt_validate demo_d (PDict [([97%N], PList [PInt 3; PFloat (of_Z 10)])]) PNone)
+           (Ok (PDict [([97%N], PTuple [PFloat (of_Z 3); PFloat (of_Z 10)])])) = true /\
+  validate_guard demo_d (PDict [([97%N], PList [PInt 3])]) PNone = true /\
+  wire_guard E0 demo_d (PDict [([98%N], PInt 4)]) PNone = true.
+Proof. repeat split; vm_compute; reflexivity. Qed.
+
 Print Assumptions C01_source_facts.
+Print Assumptions C01_validate_sound.
+Print Assumptions C01_wire_sound.
+Print Assumptions C01_validate_total.
+Print Assumptions C01_import_total.
+Print Assumptions C01_wire_total.
+Print Assumptions C01_clamp_between.
